@@ -32,7 +32,7 @@ class WatchSpec(SeqSpec):
                 "  let '(cfg, n, evs) := c in Watch.accepts_history cfg n evs.")
     checkers = {"M": "chk"}
 
-    def gen_one(self, rng, kind):
+    def gen_one(self, rng, kind, maxpar=3):
         threads = []
         ops = []
         seqno = {}
@@ -51,11 +51,17 @@ class WatchSpec(SeqSpec):
                 p.append(["set", setv(t)] if rng.random() < pset else ["value"])
             return p
 
+        # The matcher explores every schedule compatible with the recorded history: its cost grows
+        # with the number of calls in flight at the same time, so at most MAXPAR goroutines
+        # (racing group + observers, which wake up on every Set) are active together
+        # (3 in the quick tier, 4 in the thorough tier).
+        MAXPAR = maxpar
         ngates = 0
         nwatch = rng.choice([0, 1, 1, 2])
         if kind == "first-set-race":
             # Value racing the very first Set: nothing set before the group starts
-            n = rng.choice([2, 3, 4])
+            nwatch = min(nwatch, 1)
+            n = min(rng.choice([2, 3, 3]), MAXPAR - nwatch)
             grp = []
             for i in range(n):
                 t = add(0, None)
@@ -73,22 +79,27 @@ class WatchSpec(SeqSpec):
             ngates = 1
         else:
             # watchers first (ungated or behind their own gate), then one or two racing groups
+            nw = 0
             for _ in range(nwatch):
                 if rng.random() < 0.5:
                     ops.append(["spawn", add(-1, [["watch"]])])
+                    nw += 1
             if ops and rng.random() < 0.5:
                 ops.append(["quiesce"])
             ngroups = rng.choice([1, 1, 2])
             for g in range(ngroups):
-                n = rng.choice([1, 2, 2, 3, 3, 4])
+                if g > 0 and ops[-1] != ["quiesce"]:
+                    ops.append(["quiesce"])      # groups do not overlap
+                n = min(rng.choice([1, 2, 2, 3, 3, 4]), MAXPAR - nw)
                 grp = []
                 for i in range(n):
                     t = add(g, None)
                     pset = rng.choice([0.3, 0.5, 0.7, 1.0])
                     threads[t]["prog"] = prog_for(t, rng.choice([1, 2, 2, 3, 4]), pset)
                     grp.append(t)
-                if rng.random() < 0.4:
+                if n + nw < MAXPAR and rng.random() < 0.4:
                     grp.append(add(g, [["watch"]]))
+                    nw += 1
                 rng.shuffle(grp)
                 ops += [["spawn", t] for t in grp]
                 if rng.random() < 0.3:
@@ -104,8 +115,8 @@ class WatchSpec(SeqSpec):
         return {"component": "watch", "ops": ops, "cfg": {"threads": threads, "ngates": ngates}}
 
     def gen(self, rng, tier, scale):
-        n = int((220 if tier == "quick" else 3500) * scale)
-        return [self.gen_one(rng, "first-set-race" if i % 3 == 0 else "groups") for i in range(n)]
+        n = int((200 if tier == "quick" else 2400) * scale)
+        return [self.gen_one(rng, "first-set-race" if i % 3 == 0 else "groups", 3 if tier == "quick" else 4) for i in range(n)]
 
     def coq_case(self, case, obs):
         ths = []
